@@ -32,7 +32,11 @@ def apid(c):
 
 
 JUNK = [b'', b'', b'ter\x00xyz', b'\xff\xfe stale', b'Z' * 19, b'\x00\x00tail']      # bytes after the terminator
-NAMES = ['a', 'launchd', 'kernel_task', 'x' * 19, 'SpringBoard', 'é' * 9, 'p', 'mediaserverd', 'with space', '']
+NAMES = ['a', 'launchd', 'kernel_task', 'x' * 19, 'SpringBoard', 'é' * 9, 'p', 'mediaserverd', 'with space', '',
+         # names are byte strings of the file, reported as they are: text that is EQUIVALENT under some normalisation (Unicode
+         # composition, compatibility forms, case folding, stripping) is still another name
+         'Cafe\u0301', 'Caf\u00e9', 'u\u0308ber', '\u2126hm', '\u03a9hm', '\ufb01le', 'file', 'stra\u00dfe', 'STRASSE', 'launchD', ' pad ', 'tab\tx',
+         '\u0130x', 'i\u0307x']
 
 
 def independent_decode(rec):
